@@ -33,7 +33,8 @@ package cpusuppress
 //@   ensures #fresh: result != nil && fresh(result)
 //@   assert before call RecordBESuppressLSUsedCPU: #budget: $arg0 == podNonBEUsedCPU && nodeBESuppress.MilliValue() == (beCPUMinThreshold == nil ? rawBudget(old(capMilli(node)), beCPUUsedThreshold, podNonBEUsedCPU, hostAppNonBEUsedCPU, systemUsedCPU) : max(old(capMilli(node) * deref(beCPUMinThreshold) / 100), rawBudget(old(capMilli(node)), beCPUUsedThreshold, podNonBEUsedCPU, hostAppNonBEUsedCPU, systemUsedCPU)))
 //@   ensures #floor: beCPUMinThreshold != nil ==> result.MilliValue() >= old(capMilli(node) * deref(beCPUMinThreshold) / 100)
-//@   assert after call CalculateFilterPodsUsed: #sysfloor: result2 >= $arg1 && result2 >= 0 && $arg0 == nodeMetric && $arg1 * 1000 == old(ceil(1000 * helpers.nodeReservedCPU(node)))
+//@   assert after call CalculateFilterPodsUsed: #sysfloor: result2 >= $arg1 && result2 >= 0
+//@   assert after call CalculateFilterPodsUsed: #sysargs: $arg0 == nodeMetric && $arg1 * 1000 == old(ceil(1000 * helpers.nodeReservedCPU(node)))
 
 // ---------- quota mode ----------
 
